@@ -648,4 +648,13 @@ func (t *tfunc) noteConst(e ast.Expr, val string) {
 		return
 	}
 	t.g.consts["K_"+c.Pkg().Name()+"_"+c.Name()] = t.g.leanType(n) + " := " + val
+	// and with it every other member of the same enum, whether the translated code mentions it or not
+	sc := c.Pkg().Scope()
+	for _, name := range sc.Names() {
+		if oc, ok := sc.Lookup(name).(*types.Const); ok && types.Identical(oc.Type(), c.Type()) {
+			if lit, ok := constLit(oc.Val()); ok {
+				t.g.consts["K_"+oc.Pkg().Name()+"_"+oc.Name()] = t.g.leanType(n) + " := " + lit
+			}
+		}
+	}
 }
